@@ -37,9 +37,6 @@ REASONED = {
 
 
 def run(repo, res):
-    _ns, _np = R.shape_stats(repo)
-    res.extra['e1_shapes_interpreted'] = _ns
-    res.extra['e1_shape_paths_interpreted'] = _np
     # ---- R1 get_expr_end: abstractly interpreted on symbolic expression trees --------------------------
     from ..exprend import expr_end_semantics
     sem = expr_end_semantics(repo)
@@ -53,6 +50,9 @@ def run(repo, res):
                   sample='get_expr_end(%s) = start of the last visited node + 1 column' % cls)
     if any(v != 'ok' for _, v, _ in sem):
         return      # the visitor summaries below rely on this helper
+    _ns, _np = R.shape_stats(repo)
+    res.extra['e1_shapes_interpreted'] = _ns
+    res.extra['e1_shape_paths_interpreted'] = _np
     # ---- R1 anchors are token starts ---------------------------------------------------------
     brecs = R.binder_records(repo)
     n = 0
